@@ -48,6 +48,8 @@ impl<'a> Iterator for Splitter<'a> {
     //
 
     fn next(&mut self) -> Option<Self::Item> {
+        #[cfg(bpaf_verif)]
+        crate::verif::tick();
         if self.input.is_empty() {
             return None;
         }
